@@ -4,11 +4,15 @@
    Definitions only, no proofs. *)
 From LV Require Export Model.PType Gen.PTypeObserved Gen.DocTable.
 
-(* the plane type the documentation gives a class; for a public class the planes.rst table does
-   not list (Grism, LensletArray) the multiplication table is entered with the ptype attribute its
-   instances carry *)
-Definition eff_ptype (k : cls) : ptype :=
-  match doc_class_ptype k with Some p => p | None => observed_class_ptype k end.
+(* the plane type the documentation gives an instance of a class: the one handed to the constructor
+   ("If ptype is not provided, it defaults to ..."), else the default of the planes.rst table; for a
+   public class that table does not list (Grism, LensletArray) the multiplication table is entered
+   with the ptype attribute its instances carry *)
+Definition eff_ptype (k : cls) (po : option ptype) : ptype :=
+  match po with
+  | Some p => p
+  | None => match doc_class_ptype k with Some p => p | None => observed_class_ptype k end
+  end.
 
 (* types, acceptance and exceptions from the documentation; the tilt bit from the implementation
    (Model/PType.v:doc_machine) *)
@@ -18,8 +22,18 @@ Definition documented : machine cls :=
 (* known finding C08-rotate-flip: these two documented classes cannot be applied at all *)
 Definition known_broken (k : cls) : bool :=
   match k with KRotate | KFlip => true | _ => false end.
+(* claimed: every operation except Rotate/Flip and except a ptype override the class constructor
+   does not accept (there is no such object) *)
 Definition op_claimed (o : op cls) : bool :=
-  match o with MulClass k _ => negb (known_broken k) | _ => true end.
+  match o with
+  | MulClass k po _ =>
+      negb (known_broken k) &&
+      match po with
+      | None => true
+      | Some p => match observed_override_ptype k p with Some _ => true | None => false end
+      end
+  | _ => true
+  end.
 Definition is_fft (o : op cls) : bool :=
   match o with Propagate Fft => true | _ => false end.
 (* a step that never hands a tilt to a wavefront that had none *)
@@ -36,7 +50,7 @@ Definition tdoc (w : wtype) (d : option wtype) : toutcome :=
 Definition tstep (w : wtype) (o : op cls) : toutcome :=
   match o with
   | MulType p _ => tdoc w (doc_mul w p)
-  | MulClass k _ => tdoc w (doc_mul w (eff_ptype k))
+  | MulClass k po _ => tdoc w (doc_mul w (eff_ptype k po))
   | Propagate m => tdoc w (doc_prop m w)
   | Fresh s => TYields (ty s)
   end.
